@@ -1,6 +1,8 @@
 import NbioVerif.Model.Resp
 import NbioVerif.Model.Own
 import NbioVerif.Model.OwnBody
+import NbioVerif.Model.OwnConn
+import NbioVerif.Model.OwnWs
 import NbioVerif.Model.Http
 import NbioVerif.DrvCommon
 /-! respdrv: line-protocol driver of the HTTP response model (harness/cmd/hresp).  See the header of
@@ -91,12 +93,162 @@ structure BS where
   handler : Own.Handler := {}
   dead : Bool := false
 
+/-- conn-case state: the write-queue twin -/
+structure CSt where
+  cs : OwnC.CS := {}
+  maxWB : Nat := 0
+  fsize : Nat := 0
+
+/-- ws-case state: the websocket ownership twin, the unconsumed inbound bytes (to find frame boundaries),
+the offset of the invalid frame, the conn write counter for injected errors -/
+structure WSt where
+  g : OwnW.Cfg := {}
+  s : OwnW.S := {}
+  client : Bool := false
+  rx : List UInt8 := []
+  off : Nat := 0
+  bad : Option Nat := none
+  fail : Nat := 0
+  writes : Nat := 0
+  dead : Bool := false
+
 structure DS where
   g : Cfg
   r : R
   ph : Phase
   o : Own.O := {}
   b : Option BS := none
+  c : Option CSt := none
+  w : Option WSt := none
+
+namespace WsGlue
+
+/-- the answer of the next direct conn write (non-async conns with fail=k) -/
+def nextOk (w : WSt) : WSt × Bool :=
+  let n := w.writes + 1
+  ({ w with writes := n }, !(w.fail > 0 && n ≥ w.fail))
+
+/-- size of an outgoing frame with `n` payload bytes -/
+def frameSize (client : Bool) (n : Nat) : Nat :=
+  (if n < 126 then 2 else if n ≤ 65535 then 4 else 10) + (if client then 4 else 0) + n
+
+/-- frames of WriteMessage(opcode, n bytes): `none` = refused before any frame (control payload too big) -/
+def outFrames (client : Bool) (opcode n : Nat) : Option (List Nat) :=
+  if opcode ≥ 8 then (if n > 125 then none else some [frameSize client n])
+  else if n == 0 then some [frameSize client 0]
+  else
+    let rec go (fuel rem : Nat) : List Nat :=
+      match fuel with
+      | 0 => []
+      | f+1 => if rem == 0 then [] else let k := min rem 32768; frameSize client k :: go f (rem - k)
+    some (go (n / 32768 + 2) n)
+
+/-- answers for the direct conn writes of a frame list (an async conn does not write in WriteMessage) -/
+def answers (w : WSt) (frames : List Nat) : WSt × List (Nat × Bool) :=
+  if w.g.async then (w, frames.map fun f => (f, true)) else
+  frames.foldl (fun (acc : WSt × List (Nat × Bool)) f =>
+    -- a failed write stops WriteMessage: later frames never reach the conn
+    if acc.2.any (fun p => !p.2) then (acc.1, acc.2 ++ [(f, true)]) else
+    let (w', ok) := nextOk acc.1
+    (w', acc.2 ++ [(f, ok)])) (w, [])
+
+/-- the sender goroutine runs until it blocks in conn.Write -/
+def settle (w : WSt) : WSt := { w with s := OwnW.dStart w.s }
+
+def send (w : WSt) (opcode n : Nat) : WSt × String :=
+  if w.s.closed then (w, "closed") else
+  match outFrames w.client opcode n with
+  | none => (w, "other")
+  | some frames =>
+    let qlen0 := OwnW.qlen w.s
+    let (w, fr) := answers w frames
+    let s' := OwnW.send w.g w.s (opcode ≥ 8) fr
+    let err :=
+      if w.g.async then
+        -- full iff some fragment found the queue at its maximum
+        (if w.g.qmax > 0 && qlen0 + frames.length > w.g.qmax then "full" else "none")
+      else if fr.any (fun p => !p.2) then "conn" else "none"
+    ({ w with s := s' }, err)
+
+structure Hdr where
+  opcode : Nat
+  fin : Bool
+  bl : Nat
+  total : Nat
+
+def decode (rx : List UInt8) : Option Hdr :=
+  match rx with
+  | b0 :: b1 :: rest =>
+    let opcode := b0.toNat % 16
+    let fin := b0.toNat ≥ 128
+    let masked := b1.toNat ≥ 128
+    let pl := b1.toNat % 128
+    let m := if masked then 4 else 0
+    if pl < 126 then some ⟨opcode, fin, pl, 2 + m + pl⟩
+    else if pl == 126 then
+      match rest with
+      | x :: y :: _ => let n := x.toNat * 256 + y.toNat; some ⟨opcode, fin, n, 4 + m + n⟩
+      | _ => none
+    else
+      if rest.length ≥ 8 then
+        let n := (rest.take 8).foldl (fun a c => a * 256 + c.toNat) 0
+        some ⟨opcode, fin, n, 10 + m + n⟩
+      else none
+  | _ => none
+
+/-- the frame loop of Parse on the twin; returns the deliveries and whether an error ended it -/
+partial def frames (w : WSt) (dl : List String) (mlen : Nat) : WSt × List String × Bool :=
+  match decode w.rx with
+  | none => (w, dl, false)
+  | some h =>
+    if w.rx.length < h.total then (w, dl, false) else
+    if w.bad == some w.off then (w, dl, true) else
+    let control := h.opcode ≥ 8
+    let s1 := OwnW.rxFrame w.g w.s ⟨h.total, h.bl, control, h.fin⟩
+    let newHeld := s1.held.length - w.s.held.length
+    let w := { w with s := s1, rx := w.rx.drop h.total, off := w.off + h.total }
+    -- message length for the delivery report
+    let mlen' := if control then mlen else mlen + h.bl
+    let dl := if !control && h.fin then dl ++ [s!"m{mlen'}"] else dl
+    let dl := if !control && h.bl > 0 && w.g.df then dl ++ [s!"f{h.bl}"] else dl
+    let mlen' := if !control && h.fin then 0 else mlen'
+    -- handlers, oldest payload first; a ping makes the default handler send a pong
+    let isPing := h.opcode == 9
+    let w :=
+      if control then
+        if newHeld == 0 then (if isPing then (send w 10 h.bl).1 else w)
+        else
+          if isPing then
+            let (w1, fr) := answers w [frameSize w.client h.bl]
+            { w1 with s := OwnW.rxHandle w1.g w1.s true (fr.headD (0, true)) }
+          else { w with s := OwnW.rxHandle w.g w.s false (0, true) }
+      else (List.range newHeld).foldl (fun w _ => { w with s := OwnW.rxHandle w.g w.s false (0, true) }) w
+    frames w dl mlen'
+
+def showQ (w : WSt) : String :=
+  let slots := (List.replicate w.s.qtaken "-") ++ w.s.qrest.map toString
+  let q := if slots.isEmpty then "-" else String.intercalate "," slots
+  let fl := if w.s.phase == .writing then 1 else 0
+  s!"q={q} fl={fl}"
+
+end WsGlue
+
+def parseAns (s : String) : Option (List OwnC.KAns) :=
+  if s == "-" || s == "" then some [] else
+  (s.splitOn ",").mapM fun t =>
+    if t == "eagain" then some .eagain
+    else if t == "eintr" then some .eintr
+    else if t == "fail" then some .fail
+    else if t.startsWith "w" then (t.drop 1).toString.toNat?.bind fun n => if n > 0 then some (.wrote n) else none
+    else none
+
+def showItems (wl : List OwnC.CItem) : String :=
+  if wl.isEmpty then "-" else String.intercalate "," (wl.map fun
+    | .buf _ len off _ => s!"b{len}/{off}"
+    | .file rem => s!"f{rem}")
+
+def showCErr : OwnC.CErr → String
+  | .none => "none" | .closed => "closed" | .overflow => "overflow" | .io => "io"
 
 /-- the tracker's capacity policy -/
 def capOf (n : Nat) : Nat := max 64 ((n + 63) / 64 * 64)
@@ -167,17 +319,82 @@ partial def loop (h : IO.FS.Stream) (s : DS) : IO Unit := do
   match ws with
   | "C" :: "resp" :: rest =>
     match mkCfg rest with
-    | some g => IO.println "ok"; loop h { g := withHead g, r := {}, ph := .running, o := {}, b := none }
+    | some g => IO.println "ok"; loop h { g := withHead g, r := {}, ph := .running, o := {}, b := none, c := none, w := none }
     | none => IO.println "bad-op"; loop h { s with ph := .none }
   | "C" :: "body" :: rest =>
     match field rest "maxbody", field rest "rl", (field rest "hp").bind mkHandler with
     | some mb, some rl, some hd =>
       let hg : Http.Cfg := { isClient := false, maxBody := mb.toNat!, urlOk := fun _ => true, protoOk := fun _ => true }
       IO.println "ok"
-      loop h { s with ph := .none, b := some { hg, hp := Http.init hg, maxBody := mb.toNat!, rl := rl.toNat!, handler := hd } }
+      loop h { s with ph := .none, c := none, w := none, b := some { hg, hp := Http.init hg, maxBody := mb.toNat!, rl := rl.toNat!, handler := hd } }
     | _, _, _ => IO.println "bad-op"; loop h { s with ph := .none, b := none }
-  | "C" :: _ => IO.println "bad-op"; loop h { s with ph := .none, b := none }
+  | "C" :: "conn" :: rest =>
+    match (field rest "maxwb").bind (fun (t : String) => t.toNat?), (field rest "fsize").bind (fun (t : String) => t.toNat?), field rest "typ" with
+    | some mw, some fs, some typ =>
+      if typ == "tcp" || typ == "unix" then
+        IO.println "ok"; loop h { s with ph := .none, b := none, w := none, c := some { maxWB := mw, fsize := fs } }
+      else IO.println "bad-op"; loop h { s with ph := .none, b := none, c := none }
+    | _, _, _ => IO.println "bad-op"; loop h { s with ph := .none, b := none, c := none }
+  | "C" :: "ws" :: rest =>
+    let fb (k : String) : Bool := field rest k == some "1"
+    match (field rest "qmax").bind (fun (t : String) => t.toNat?), (field rest "fail").bind (fun (t : String) => t.toNat?),
+          field rest "bad" with
+    | some qmax, some fail, some bad =>
+      let wg : OwnW.Cfg := { async := fb "async", qmax := qmax, rp := fb "rp", df := fb "df" }
+      let w0 : WSt := { g := wg, client := fb "client", bad := bad.toNat?, fail := fail }
+      IO.println "ok"
+      loop h { s with ph := .none, b := none, c := none, w := some w0 }
+    | _, _, _ => IO.println "bad-op"; loop h { s with ph := .none, b := none, c := none, w := none }
+  | "C" :: _ => IO.println "bad-op"; loop h { s with ph := .none, b := none, c := none, w := none }
+  | "O" :: kind :: rest =>
+    match s.c, (field rest "K").bind parseAns <|> (if kind == "close" then some [] else none) with
+    | some c, some ks =>
+      let n0 := c.cs.heap.trace.length
+      let args := rest.filter (fun t => !t.startsWith "K=")
+      let k1 : OwnC.KAns := ks.headD .eagain
+      let res : Option (OwnC.CS × OwnC.CErr) :=
+        match kind, args with
+        | "write", [n] => n.toNat?.map fun n => OwnC.write capOf c.maxWB c.cs n k1
+        | "writev", [ns] => ((ns.splitOn ",").mapM (fun (t : String) => t.toNat?)).map fun bs => OwnC.writev capOf c.maxWB c.cs bs k1
+        | "sendfile", [off, ln] =>
+          match off.toNat?, ln.toNat? with
+          | some off, some ln =>
+            if c.fsize == 0 || off > c.fsize then none else
+            let rem := if ln == 0 || ln > c.fsize - off then c.fsize - off else ln
+            some (OwnC.sendfile c.cs rem ks)
+          | _, _ => none
+        | "flush", [] =>
+          if c.cs.closed then some (c.cs, .closed) else
+          let cs' := OwnC.flush c.cs ks
+          some (cs', if cs'.closed then .io else .none)
+        | "close", [] => some (OwnC.close c.cs, .none)
+        | _, _ => none
+      match res with
+      | some (cs, err) =>
+        IO.println s!"R err={showCErr err} q={showItems cs.wl} tr={Own.traceSince cs.heap n0}"
+        loop h { s with c := some { c with cs } }
+      | none => IO.println "bad-op"; loop h s
+    | _, _ => IO.println "bad-op"; loop h s
   | ["D", hx] =>
+    match s.b, s.w with
+    | none, some w =>
+      if w.dead then IO.println "dead"; loop h s else
+      let n0 := w.s.heap.trace.length
+      let data := unhex hx
+      if w.s.closed then
+        IO.println s!"R closed cache=0 msg=0 dl=- {WsGlue.showQ w} tr=-"; loop h s
+      else
+        let mlen0 := match w.s.message with | some (_, l) => l | none => 0
+        let w1 := { w with s := OwnW.rxAppend w.s data.length, rx := w.rx ++ data }
+        let (w2, dl, bad) := WsGlue.frames w1 [] mlen0
+        let w2 := WsGlue.settle w2
+        let cl := match w2.s.cache with | some (_, l) => l | none => 0
+        let ml := match w2.s.message with | some (_, l) => l | none => 0
+        let dls := if dl.isEmpty then "-" else String.intercalate "," dl
+        IO.println s!"R {if bad then "err" else "ok"} cache={cl} msg={ml} dl={dls} {WsGlue.showQ w2} tr={Own.traceSince w2.s.heap n0}"
+        loop h { s with w := some { w2 with dead := bad } }
+    | none, none => IO.println "bad-op"; loop h s
+    | some _, _ =>
     match s.b with
     | none => IO.println "bad-op"; loop h s
     | some b =>
@@ -198,7 +415,27 @@ partial def loop (h : IO.FS.Stream) (s : DS) : IO Unit := do
         | .closed, _ => { b with ps }
         | _, _ => { b with ps, dead := true }
       loop h { s with b := some b }
+  | ["G", how] =>
+    match s.w with
+    | some w =>
+      let n0 := w.s.heap.trace.length
+      if w.s.phase != .writing then
+        IO.println s!"S err=idle {WsGlue.showQ w} tr=-"; loop h s
+      else
+        let s1 := OwnW.dAdvance (OwnW.dFree (OwnW.dEnd w.s (how == "ok")))
+        let w' := WsGlue.settle { w with s := s1 }
+        IO.println s!"S err=none {WsGlue.showQ w'} tr={Own.traceSince w'.s.heap n0}"
+        loop h { s with w := some w' }
+    | none => IO.println "bad-op"; loop h s
   | ["X"] =>
+    match s.b, s.w with
+    | none, some w =>
+      let n0 := w.s.heap.trace.length
+      let w' := { w with s := OwnW.close w.s }
+      IO.println s!"S err=none {WsGlue.showQ w'} tr={Own.traceSince w'.s.heap n0}"
+      loop h { s with w := some w' }
+    | none, none => IO.println "bad-op"; loop h s
+    | some _, _ =>
     match s.b with
     | none => IO.println "bad-op"; loop h s
     | some b =>
@@ -219,6 +456,20 @@ partial def loop (h : IO.FS.Stream) (s : DS) : IO Unit := do
     | some ck => plain "X" (.delHeader (payload ck))
     | none => IO.println "bad-op"; loop h s
   | "S" :: c :: rest =>
+    match s.w with
+    | some w =>
+      match c.toNat?, rest with
+      | some op, [n] =>
+        match n.toNat? with
+        | some n =>
+          let n0 := w.s.heap.trace.length
+          let (w', err) := WsGlue.send w op n
+          let w' := WsGlue.settle w'
+          IO.println s!"S err={err} {WsGlue.showQ w'} tr={Own.traceSince w'.s.heap n0}"
+          loop h { s with w := some w' }
+        | none => IO.println "bad-op"; loop h s
+      | _, _ => IO.println "bad-op"; loop h s
+    | none =>
     match field rest "st", c.toNat? with
     | some st, some code => plain "S" (.writeHeader code (payload st))
     | _, _ => IO.println "bad-op"; loop h s
